@@ -65,9 +65,10 @@ def state_tracker(rep, tier):
     if rc != 0 or not summ:
         rep.violation("best-state replay driver crashed (rc=%d)" % rc, payload={"output": o[-3000:]})
     else:
-        for m in [x for x in recs if x["e"] == "Mismatch"][:5]:
-            rep.violation("solver_state_t deviates from SolverState.tla at %s: from %s the specification reaches %s, the implementation %s"
-                          % (m["where"], m.get("from", "-"), m["spec"], m["impl"]), payload=m)
+        # a step that deviates from the transcription is judged by what C02 itself demands (SolverStateWeak.tla): only then a violation
+        devs = [x for x in recs if "dev" in x]
+        if devs:
+            judge(rep, specdir, devs, os.path.join(work, "state_dev.ndjson"), [x for x in recs if x["e"] == "Mismatch"], "c02w")
         if not rep.violations and (summ[0]["edges"] != len(g.edges) or summ[0]["steps"] != 2 * len(g.edges) or summ[0]["states"] != 2 * len(g.nodes)):
             raise CheckError("best-state replay: %s of %d edges / %d states" % (summ[0], len(g.edges), len(g.nodes)))
         rep.add(state_tracker_edges_replayed=len(g.edges), state_tracker_states=len(g.nodes), state_tracker_steps=summ[0]["steps"])
@@ -88,13 +89,28 @@ def state_tracker(rep, tier):
     for crashed, o, acc, rejects, n in results:
         if crashed:
             rep.violation("best-state driver crashed", payload={"output": o[-3000:]})
-        for rj in rejects:
-            rep.violation("solver_state_t history rejected by SolverStateTrace.tla (%s): %s" % (rj.get("name"), str(rj.get("event"))[:500]), payload=rj)
+        for k, rj in enumerate(rejects):
+            judge(rep, specdir, rj["execution"], os.path.join(work, "state_dev_r%d.ndjson" % k), [rj.get("event")], "c02wr%d" % k)
         nacc += acc
         ncalls += n
-    if not rep.violations and nacc < nproc * nexec:
+    if not rep.violations and "state_tracker_deviations_from_transcription" not in rep.coverage and nacc < nproc * nexec:
         raise CheckError("best-state histories: %d of %d accepted without a rejection being reported" % (nacc, nproc * nexec))
     rep.add(state_tracker_histories_validated=nacc, state_tracker_calls_validated=ncalls)
+
+
+def judge(rep, specdir, records, workfile, details, tag):
+    """records (Reset-delimited histories of real calls) deviate from SolverState.tla, the transcription of the code. C02 demands less than
+    the transcription (an honest, finite, never-worse triple): SolverStateWeak.tla decides whether a deviation violates the property. A
+    deviation it accepts is recorded in the evidence only."""
+    acc, rejects, _ = trace.validate("SolverStateWeak", "SolverStateWeak.cfg", specdir, records, workfile, tag=tag, chunk=100)
+    for rj in rejects:
+        rep.violation("solver_state_t breaks the contract of the best-state tracker (%s): %s after %s"
+                      % (rj.get("name"), str(rj.get("event"))[:400], str(rj["execution"][:1])[:300]), payload=rj)
+    rep.add(state_tracker_deviations_from_transcription=len(trace.split_executions(records)), state_tracker_deviations_violating_c02=len(rejects))
+    if not rejects:
+        rep.coverage.setdefault("notes", []).append(
+            "solver_state_t deviates from SolverState.tla (the transcription of update_if_better / value_test) without breaking what C02 demands "
+            "(SolverStateWeak.tla accepts): e.g. %s" % str(details[:1])[:500])
 
 
 def run(rep, tier):
